@@ -62,7 +62,7 @@ func main() {
 		Rule: "server side: one case = one POST /authorized-servers (or one burst of 2..8 simultaneous posts of one new record, followed by its ban) (new, duplicate with changed ports/location, same content re-signed, ban, second ban, un-ban attempt incl. replay of the original record, " +
 			"bad/foreign signature on each of these, posts before registration) followed by GET + snapshot; non-trivial = the post names an existing key or carries a signature that verifies under the GCA key. " +
 			"client side: one case = one sync round against the harness-held server (server lists: new / duplicate with changed ports / ban / second ban / un-ban / duplicates inside one list / one bad entry signature / wrong server key / stale time; " +
-			"a second/third record for one key without the GCA's signature, in lists and in orders; migration orders with 0..4 servers: valid, outer invalid or foreign, inner signed by old/foreign GCA, for another device, to the current GCA, signed by a former GCA) or one restart; a round that is busy re-sending hundreds of reports while a second round adopts a ban or an order; a round whose write of gcaServers.dat fails (client hosted in a grandchild process); overlap: a round held back by the server while another round completes (and mostly migrates), then answered with an unsigned order naming the former GCA / a list or an order signed by the former GCA / a list signed by the current GCA; " +
+			"a second/third record for one key without the GCA's signature, in lists and in orders; migration orders with 0..4 servers: valid, outer invalid or foreign, inner signed by old/foreign GCA, for another device, to the current GCA, signed by a former GCA) or one restart; a round that is busy re-sending hundreds of reports while a second round adopts a ban or an order; a round whose write of gcaServers.dat fails (client hosted in a grandchild process); lists and orders of 63..400 entries (genuine, and with one entry lacking the required signature at the first, a middle and each of the last three positions; client in a grandchild process); overlap: a round held back by the server while another round completes (and mostly migrates), then answered with an unsigned order naming the former GCA / a list or an order signed by the former GCA / a list signed by the current GCA; " +
 			"non-trivial = the round reached the harness-held server. Distinct by (sequence seed, step).",
 		Assumptions: []string{
 			"the client's report loop is parked at its loop head (send.loop hook), so only the rounds issued by the harness run",
@@ -86,7 +86,7 @@ func main() {
 			for _, k := range []string{"srv.new_added", "srv.dup_ignored", "srv.ban_effective", "srv.on_banned_ignored", "srv.badsig_ignored", "srv.prereg_ignored",
 				"cli.contacted", "cli.entry_added", "cli.ban_applied", "cli.unban_ignored", "cli.dup_ignored", "cli.rejected_unchanged", "cli.migration_adopted", "cli.restart_ok",
 				"cli.class.mig_inner_wrong", "cli.class.mig_outer_invalid", "cli.class.mig_other_device", "cli.class.list_badsig",
-				"cli.class.list_dup_unsigned", "cli.class.mig_dup_unsigned", "cli.zero_order_delivered", "cli.overlap", "cli.overlap_migrated_meanwhile", "cli.resend_overlap", "cli.resend_overlap_b_changed_state_while_a_resent", "srv.burst", "srv.burst_aligned", "fault.rounds"} {
+				"cli.class.list_dup_unsigned", "cli.class.mig_dup_unsigned", "cli.zero_order_delivered", "cli.overlap", "cli.overlap_migrated_meanwhile", "cli.resend_overlap", "cli.resend_overlap_b_changed_state_while_a_resent", "srv.burst", "srv.burst_aligned", "fault.rounds", "large.genuine_rounds", "large.adopted_exactly", "large.forged.pos_from_end_0", "large.forged.pos_from_end_1", "large.forged.pos_from_end_2", "cli.class.large_list_forged", "cli.class.large_order_forged"} {
 				c.Require(k, 1)
 			}
 		},
@@ -105,6 +105,14 @@ func plan(tier string, seed int64) []run.Batch {
 	faultChildren := 2
 	if tier == "thorough" {
 		faultChildren = 16
+	}
+	largeChildren := 3
+	if tier == "thorough" {
+		largeChildren = 14
+	}
+	for i := 0; i < largeChildren; i++ {
+		bs = append(bs, run.Batch{Kind: "large", Seed: seed*1000003 + 800000 + int64(i), N: 1, TimeoutS: 115,
+			Params: map[string]string{"slice": fmt.Sprint(i), "of": fmt.Sprint(largeChildren)}})
 	}
 	for i := 0; i < faultChildren; i++ {
 		bs = append(bs, run.Batch{Kind: "fault", Seed: seed*1000003 + 700000 + int64(i), N: 4, TimeoutS: 115})
@@ -130,6 +138,14 @@ func child(b run.Batch, r *ev.Result) {
 	}
 	if b.Kind == "faultgrand" {
 		faultGrand(b, r, rng)
+		return
+	}
+	if b.Kind == "large" {
+		largeBatch(b, r, rng)
+		return
+	}
+	if b.Kind == "largegrand" {
+		largeGrand(b, r, rng)
 		return
 	}
 	for i := 0; i < b.N; i++ {
@@ -1362,6 +1378,8 @@ func (q *cseq) judgeRound(raw []byte, class string, contacted bool, ret bool) bo
 		o, had := old.Servers[k]
 		n, has := obs.Servers[k]
 		switch {
+		case had && has && kind == kOrder && idChanged && len(byKey[k]) == 0:
+			return "client-former-gca-entry-kept-after-migration", fmt.Sprintf("entry %s of the former GCA's list is still listed although the order followed does not list it under the new GCA's signature", short(o))
 		case had && !has:
 			return "client-entry-removed", fmt.Sprintf("entry %s disappeared", short(o))
 		case !had && len(byKey[k]) > 0 && kind != kReject && !n.Banned && func() bool {
@@ -1445,15 +1463,15 @@ func (q *cseq) judgeRound(raw []byte, class string, contacted bool, ret bool) bo
 			}
 			checkKeys(func(k [32]byte) entSet {
 				s := applyRecords(entSet{absent: true}, byKey[k])
-				if e, had := old.Servers[k]; had { // an entry of the former list may stay as it was
+				if e, had := old.Servers[k]; had && toCurrent { // same GCA: its former entries keep their standing
 					s.add(e)
-					if toCurrent {
-						t := applyRecords(startOf(k), byKey[k])
-						for _, v := range t.vals {
-							s.add(v)
-						}
+					t := applyRecords(startOf(k), byKey[k])
+					for _, v := range t.vals {
+						s.add(v)
 					}
 				}
+				// another GCA: only what the order lists under the new GCA's
+				// signature belongs to the device's list now
 				return s
 			})
 			if ok && !q.probe {
@@ -1915,6 +1933,291 @@ func faultGrand(b run.Batch, r *ev.Result, rng *rand.Rand) {
 		return
 	}
 	q.restart("after a round whose list write failed")
+}
+
+// ---------------------------------------------------------------- large lists
+
+// largePlan: (size, order?) cells. Sizes sit around the places where an
+// implementation might treat long lists differently.
+func largePlan(tier string, seed int64) [][2]int {
+	sizes := []int{63, 64, 65, 66, 67, 100, 101, 102, 103, 255, 256, 257, 300, 400}
+	var cells [][2]int
+	if tier == "thorough" {
+		for _, n := range sizes {
+			cells = append(cells, [2]int{n, 0}, [2]int{n, 1})
+		}
+		return cells
+	}
+	// quick: a fixed core plus two seed-dependent sizes
+	cells = [][2]int{{65, 0}, {66, 1}, {67, 0}, {103, 1}, {257, 1}, {64, 0}, {300, 0}}
+	a := sizes[int(seed%int64(len(sizes))+int64(len(sizes)))%len(sizes)]
+	b := sizes[int((seed*7+3)%int64(len(sizes))+int64(len(sizes)))%len(sizes)]
+	return append(cells, [2]int{a, 1}, [2]int{b, 0})
+}
+
+type viewJSON struct {
+	GCA     []byte
+	ID      uint32
+	Servers []refenc.MapEntry
+}
+
+func toJSON(v cliView) viewJSON {
+	o := viewJSON{GCA: v.GCA[:], ID: v.ID}
+	for _, e := range v.Servers {
+		o.Servers = append(o.Servers, e)
+	}
+	return o
+}
+
+func fromJSON(o viewJSON) cliView {
+	v := cliView{ID: o.ID, Servers: map[[32]byte]refenc.MapEntry{}}
+	copy(v.GCA[:], o.GCA)
+	for _, e := range o.Servers {
+		v.Servers[e.Pub] = e
+	}
+	return v
+}
+
+// largeGrand (grandchild process): one client, one large list or order of n
+// entries. First the forged variants (one entry without the required GCA
+// signature at the first, a middle and each of the last three positions): the
+// whole reply has to be rejected. Then the genuine one, then a restart. What
+// the client was before the genuine round and what the reply makes of it are
+// written down first, so that the parent can judge a restart if this process
+// does not survive the round.
+func largeGrand(b run.Batch, r *ev.Result, rng *rand.Rand) {
+	var n, asOrder int
+	fmt.Sscan(b.P("n"), &n)
+	fmt.Sscan(b.P("order"), &asOrder)
+	dir := b.P("client")
+	q, cleanup := setupClient(r, rng, dir, "large "+b.P("label"))
+	if q == nil {
+		return
+	}
+	armed := false
+	defer func() {
+		if !armed {
+			cleanup()
+		}
+	}()
+	G := q.gcas[q.gcaIndex()]
+	Gn := q.gcas[q.gcaIndex()+1]
+	auth := G
+	if asOrder == 1 {
+		auth = Gn
+	}
+	rogueRec := refenc.AuthServer{Pub: q.rogue.Key.Pub, Location: "127.0.0.1", TCP: q.rogue.Port, UDP: q.sink.Port}
+	base := make([]refenc.AuthServer, 0, n)
+	at := rng.Intn(n)
+	for i := 0; i < n; i++ {
+		if i == at {
+			base = append(base, rogueRec.Signed(auth.Priv))
+			continue
+		}
+		e := refenc.AuthServer{Pub: refenc.GenKey(rng).Pub, Banned: true, Location: fmt.Sprintf("%c:%d", 'a'+byte(rng.Intn(26)), rng.Intn(10)), HTTP: uint16(rng.Intn(65536)), TCP: uint16(rng.Intn(65536)), UDP: uint16(rng.Intn(65536))}
+		base = append(base, e.Signed(auth.Priv))
+	}
+	newID := uint32(rng.Intn(1 << 31))
+	build := func(list []refenc.AuthServer) []byte {
+		rep := refenc.SyncReply{DevKey: q.dev.Pub, Offset: uint32(rng.Intn(1 << 20)), Unix: uint64(time.Now().Unix()), Servers: list}
+		for i := range rep.Bitfield {
+			rep.Bitfield[i] = 0xff
+		}
+		if asOrder == 1 {
+			rep.NewGCA, rep.NewID = Gn.Pub, newID
+			rep.MigSig = refenc.Migration{Equipment: rep.DevKey, NewGCA: rep.NewGCA, NewID: rep.NewID, Servers: list}.Signed(G.Priv).Sig
+		}
+		return refenc.BuildSyncReply(rep, q.rogue.Key.Priv)
+	}
+	kindName := []string{"list", "order"}[asOrder]
+	// ---- forged variants
+	positions := []int{0, n / 2, n - 3, n - 2, n - 1}
+	for pi, pos := range positions {
+		if pos == at { // keep the contacted server's own genuine entry
+			pos = (pos + n - 4) % n
+		}
+		list := append([]refenc.AuthServer(nil), base...)
+		f := list[pos]
+		how := ""
+		switch (pi + int(b.Seed&7)) % 5 {
+		case 0:
+			f = refenc.AuthServer{Pub: refenc.GenKey(rng).Pub, Location: "127.77.1.1", TCP: 1, UDP: 1}
+			rng.Read(f.Sig[:])
+			how = "new_server_garbage_sig"
+		case 1:
+			f = refenc.AuthServer{Pub: refenc.GenKey(rng).Pub, Banned: true, Location: "x:"}.Signed(q.foreign.Priv)
+			how = "new_server_foreign_gca"
+		case 2: // a ban of the contacted (honest) server that nobody signed
+			f = rogueRec
+			f.Banned = true
+			how = "unsigned_ban_of_known_server"
+		case 3: // signed by the wrong one of the two GCAs involved
+			wrong := Gn
+			if asOrder == 1 {
+				wrong = G
+			}
+			f = refenc.AuthServer{Pub: refenc.GenKey(rng).Pub, Banned: rng.Intn(2) == 0, Location: "y:"}.Signed(wrong.Priv)
+			how = "signed_by_the_other_gca"
+		default: // genuine signature bytes over altered content
+			f.TCP ^= 0x55
+			f.Banned = !f.Banned
+			how = "altered_content_old_signature"
+		}
+		list[pos] = f
+		class := fmt.Sprintf("large_%s_forged", kindName)
+		r.Count(fmt.Sprintf("large.forged.pos_from_end_%d", min(n-1-pos, 3)), 1)
+		q.steps = append(q.steps, fmt.Sprintf("n=%d pos=%d %s", n, pos, how))
+		if !q.round(build(list), class) {
+			return
+		}
+	}
+	// ---- the genuine one
+	raw := build(base)
+	post := q.cur
+	if asOrder == 1 {
+		post = cliView{GCA: Gn.Pub, ID: newID, Servers: map[[32]byte]refenc.MapEntry{}}
+	} else {
+		post.Servers = map[[32]byte]refenc.MapEntry{}
+		for k, e := range q.cur.Servers {
+			post.Servers[k] = e
+		}
+	}
+	for _, e := range base {
+		if _, had := post.Servers[e.Pub]; !had {
+			post.Servers[e.Pub] = content(e)
+		}
+	}
+	exp, _ := json.Marshal(map[string]viewJSON{"pre": toJSON(q.cur), "post": toJSON(post)})
+	os.WriteFile(filepath.Join(b.Dir, "expect.json"), exp, 0644)
+	r.Count("large.genuine_rounds", 1)
+	r.Save(filepath.Join(b.Dir, "result.json"))
+	class := fmt.Sprintf("large_%s_genuine", kindName)
+	q.steps = append(q.steps, fmt.Sprintf("n=%d genuine", n))
+	armed = true // a death in here must not run Close() on the way out (the client may hold its lock)
+	ok := q.round(raw, class)
+	armed = false
+	if !ok {
+		return
+	}
+	if q.cur.diff(post) == "" {
+		r.Count("large.adopted_exactly", 1)
+		r.Count(fmt.Sprintf("large.adopted_exactly.n_%d", n), 1)
+	} else {
+		r.Count("large.not_adopted_exactly", 1)
+		r.Note("large %s of %d entries was not adopted exactly: %s", kindName, n, q.cur.diff(post))
+	}
+	r.Max("max.cli_servers", int64(len(q.cur.Servers)))
+	q.restart("after a large " + kindName)
+}
+
+// largeBatch hosts the grandchildren. A grandchild that dies did so without
+// any injected fault: that is a violation by itself. The client is then started
+// again on the same directory: it must be either what it was before the round
+// or exactly what the reply makes of it.
+func largeBatch(b run.Batch, r *ev.Result, rng *rand.Rand) {
+	self, err := os.Executable()
+	if err != nil {
+		r.Inconc(err.Error())
+		return
+	}
+	cells := largePlan(b.Tier, b.Seed/1000003)
+	var slice, of int
+	fmt.Sscan(b.P("slice"), &slice)
+	fmt.Sscan(b.P("of"), &of)
+	for i, cell := range cells {
+		if of > 0 && i%of != slice {
+			continue
+		}
+		dir := filepath.Join(b.Dir, fmt.Sprintf("g%d", i))
+		cdir := filepath.Join(dir, "client")
+		os.MkdirAll(dir, 0755)
+		label := fmt.Sprintf("batchseed=%d n=%d order=%d", b.Seed, cell[0], cell[1])
+		gb := run.Batch{Index: i, Seed: rng.Int63(), Tier: b.Tier, Kind: "largegrand", N: 1, Dir: dir,
+			Params: map[string]string{"client": cdir, "label": label, "n": fmt.Sprint(cell[0]), "order": fmt.Sprint(cell[1])}}
+		raw, _ := json.Marshal(gb)
+		bf := filepath.Join(dir, "batch.json")
+		os.WriteFile(bf, raw, 0644)
+		se, _ := os.Create(filepath.Join(dir, "stderr"))
+		cmd := exec.Command(self, "child", bf)
+		cmd.Dir = dir
+		cmd.Stderr = se
+		cmd.Env = append(os.Environ(), "GOTRACEBACK=all", "TMPDIR="+dir)
+		run.Op("%s: start", label)
+		if err := cmd.Start(); err != nil {
+			se.Close()
+			r.Inconc("cannot start grandchild: " + err.Error())
+			return
+		}
+		done := make(chan error, 1)
+		go func() { done <- cmd.Wait() }()
+		timedOut := false
+		select {
+		case <-done:
+		case <-time.After(80 * time.Second):
+			timedOut = true
+			cmd.Process.Kill()
+			<-done
+		}
+		se.Close()
+		stderr, _ := os.ReadFile(filepath.Join(dir, "stderr"))
+		oplog, _ := os.ReadFile(filepath.Join(dir, "oplog"))
+		if res, err := ev.LoadResult(filepath.Join(dir, "result.json")); err == nil {
+			r.Eval(int(res.Evaluations))
+			for k, v := range res.Counters {
+				if strings.HasPrefix(k, "max.") {
+					r.Max(k, v)
+				} else {
+					r.Count(k, v)
+				}
+			}
+			for _, v := range res.Violations {
+				r.Violation(v.Key, v.Desc, v.Replay)
+			}
+			for _, s := range res.Inconclusive {
+				r.Inconc(s)
+			}
+		}
+		r.Nontrivial(label)
+		rp := map[string]interface{}{"batch": theBatch, "grandchild": label, "stderr_head": string(stderr[:min(len(stderr), 3000)]), "oplog_tail": lastLines(string(oplog), 12)}
+		code := cmd.ProcessState.ExitCode()
+		switch {
+		case timedOut:
+			r.Inconc(label + " hit the 80 s watchdog")
+		case code == 0:
+		default:
+			line := run.CrashLine(string(stderr))
+			if line == "" {
+				r.Inconc(fmt.Sprintf("%s ended with exit %d and no crash line", label, code))
+				break
+			}
+			r.Violationf("crash:"+run.Normalize(line), rp, "the process hosting the client died while it handled a reply of %d server entries (exit %d): %s", cell[0], code, line)
+			var exp map[string]viewJSON
+			if raw, err := os.ReadFile(filepath.Join(dir, "expect.json")); err != nil || json.Unmarshal(raw, &exp) != nil {
+				break
+			}
+			c, err := drv.StartClient(cdir)
+			r.Eval(1)
+			if err != nil {
+				r.Violationf("client-restart-fails", rp, "after that death the client does not start on its own files: %v", err)
+				break
+			}
+			obs := viewOf(c)
+			closeClient(c)
+			pre, post := fromJSON(exp["pre"]), fromJSON(exp["post"])
+			switch {
+			case obs.diff(pre) == "":
+				r.Count("large.after_death_unchanged", 1)
+			case obs.diff(post) == "":
+				r.Count("large.after_death_adopted", 1)
+			default:
+				r.Violationf("client-restart-after-death:neither-old-nor-new", rp, "after the death and a restart the client is neither what it was (%s) nor what the reply makes of it (%s): GCA %x id %d with %d servers", obs.diff(pre), obs.diff(post), obs.GCA[:4], obs.ID, len(obs.Servers))
+			}
+		}
+		os.RemoveAll(dir)
+		if r.NumViolations() > 6 {
+			return
+		}
+	}
 }
 
 // faultBatch hosts the grandchildren and judges the ones that died.
